@@ -1,6 +1,7 @@
 // C11 -- text::clean produces the whitespace normal form; whitespace::remove / whitespace::full
 use vstd::prelude::*;
 verus! {
+//@include specs/std_extra.rs
 //@include specs/err.rs
 //@include specs/chars.rs
 //@include specs/ws.rs
